@@ -248,6 +248,11 @@ def enumerate_cases(tier, seed):
             for ex in EXEC:
                 add(kinds, [1] * len(kinds), ["lit"] * len(kinds), [True] * len(kinds), "custom", ex, 2, "zero")
                 cases[-1]["rerun"] = rerun
+    # ---- long sweeps given as numpy expressions (more values than the expression has characters)
+    for kinds, lens in ((("A1", "T"), (40, 2)), (("T", "A1"), (2, 40)), (("B1",), (30,))):
+        for mode in ("product", "sequential"):
+            for ex in EXEC:
+                add(kinds, lens, ["nprange" if n > 3 else "lit" for n in lens], [True] * len(kinds), mode, ex)
     # ---- a swept vector longer than the configured one, next to a scalar parameter (sequential: the runs of the scalar
     #      parameter use - and are labelled with - the shorter configured vector)
     for kinds in (("A1", "V1x3"), ("V1x3", "A1"), ("V1x3", "V2x3")):
